@@ -154,16 +154,33 @@ Print Assumptions C01_durable_exactly_once_refuted.
 
 (** * 4. COUNT after recovery (class CountAfterRecovery) *)
 
-(** In-memory rows (the replayed WAL) are counted whatever their type ... *)
-Theorem C01_count_type_blind_refuted :
-  exists c ls u, 0 < c /\ lockstep ls = true /\ wal_ordered (init c) ls = true /\
+(** COUNT is the length of the scan (in-memory rows and segment rows of the queried type, before id
+    de-duplication).  [count] is defined through the regenerated flag [Params.agg_mem_filters_type]: before
+    fix dc170f4 the in-memory rows were counted whatever their type, and this theorem stops checking if
+    the memtable read paths lose the event-type condition again. *)
+Theorem C01_count_is_scan : forall s u, count s u = len (scan s u).
+Proof. exact count_is_scan. Qed.
+Print Assumptions C01_count_is_scan.
+
+(** Hence COUNT equals the selection whenever no event id occurs twice in the scan ... *)
+Theorem C01_count_exact_when_ids_distinct : forall s u,
+  NoDup (map ek (scan s u)) -> count s u = len (select s u).
+Proof. exact count_exact_when_ids_distinct. Qed.
+Print Assumptions C01_count_exact_when_ids_distinct.
+
+(** ... as on the recovery history with events of two types in the log that used to witness the
+    type-blind count (retired known finding). *)
+Theorem C01_count_two_types_exact :
+  let c := 2 in let ls := Traces.two_types in let u := 0 in
+  0 < c /\ lockstep ls = true /\ wal_ordered (init c) ls = true /\
     NoDup (map ek (stored ls)) /\ wlost (run (init c) ls) = [] /\
     select (restart (crash (run (init c) ls))) u = of_uid u (durable ls) /\
-    count (restart (crash (run (init c) ls))) u <> len (select (restart (crash (run (init c) ls))) u).
-Proof. exact count_type_blind_refuted. Qed.
-Print Assumptions C01_count_type_blind_refuted.
+    NoDup (map ek (scan (restart (crash (run (init c) ls))) u)) /\
+    count (restart (crash (run (init c) ls))) u = len (select (restart (crash (run (init c) ls))) u).
+Proof. exact count_two_types_exact. Qed.
+Print Assumptions C01_count_two_types_exact.
 
-(** ... and rows present in a leftover directory and in the WAL are counted twice. *)
+(** Still refuted: rows present in a leftover directory and in the WAL are counted twice. *)
 Theorem C01_count_double_refuted :
   exists c ls u, 0 < c /\ lockstep ls = true /\ wal_ordered (init c) ls = true /\
     NoDup (map ek (stored ls)) /\ wlost (run (init c) ls) = [] /\
@@ -175,8 +192,8 @@ Print Assumptions C01_count_double_refuted.
 
 (** What is true: the exact value ... *)
 Theorem C01_count_after_restart : forall s u,
-  count (restart (crash s)) u = len (frows (walfiles s)) + len (of_uid u (drows (dirs s))) /\
-  count (restart s) u = len (frows (walfiles s)) + len (of_uid u (drows (dirs s))).
+  count (restart (crash s)) u = len (of_uid u (frows (walfiles s))) + len (of_uid u (drows (dirs s))) /\
+  count (restart s) u = len (of_uid u (frows (walfiles s))) + len (of_uid u (drows (dirs s))).
 Proof. exact count_after_restart. Qed.
 Print Assumptions C01_count_after_restart.
 
